@@ -96,7 +96,7 @@ Nil == Msg("nil", "", 0, <<>>, P0, "")
 
 VARIABLES
   \* client
-  cText, cOpen, nEdits, nextId, resp, inbox, onDisk, hist,
+  cText, cOpen, nEdits, nextId, sent, resp, inbox, onDisk, hist,
   \* main loop
   mpc, cur, chLeft, diagTodo, alive,
   \* document store (Vfs behind an RwLock; readers are atomic, only the main loop writes)
@@ -104,13 +104,13 @@ VARIABLES
   \* analysis database (salsa): inputs, cancellation flag; snapshots are held by tasks
   dbText, dbVer, cancelFlag, taken,
   \* tasks on the blocking pool, admission, diagnostics chain
-  tasks, inflight, nextDiag, diagTask, evq, published
+  tasks, inflight, nextDiag, diagTask, retq, evq, published
 
-cvars == <<cText, cOpen, nEdits, nextId, resp, inbox, onDisk, hist>>
+cvars == <<cText, cOpen, nEdits, nextId, sent, resp, inbox, onDisk, hist>>
 mvars == <<mpc, cur, chLeft, diagTodo, alive>>
 svars == <<vfsW, vfsText, vfsVer, opened, pending, loaded>>
 dvars == <<dbText, dbVer, cancelFlag, taken>>
-tvars == <<tasks, inflight, nextDiag, diagTask, evq, published>>
+tvars == <<tasks, inflight, nextDiag, diagTask, retq, evq, published>>
 vars == <<cvars, mvars, svars, dvars, tvars>>
 
 MaxDiags == 2 * (MaxEdits + Cardinality(Docs)) + 2
@@ -128,7 +128,7 @@ T0 == <<"a">>
 Init ==
   /\ cText = [d \in Docs |-> IF Conc THEN T0 ELSE <<>>]
   /\ cOpen = [d \in Docs |-> Conc]
-  /\ nEdits = 0 /\ nextId = 1 /\ resp = [i \in 1..MaxReqs |-> 0] /\ inbox = <<>>
+  /\ nEdits = 0 /\ nextId = 1 /\ sent = {} /\ resp = [i \in 1..MaxReqs |-> 0] /\ inbox = <<>>
   /\ onDisk = [d \in Docs |-> DiskInit(d)] /\ hist = <<>>
   /\ mpc = "idle" /\ cur = Nil /\ chLeft = <<>> /\ diagTodo = {} /\ alive = TRUE
   /\ vfsW = FALSE
@@ -141,7 +141,7 @@ Init ==
   /\ cancelFlag = FALSE /\ taken = {}
   /\ tasks = <<>> /\ inflight = {} /\ nextDiag = 1
   /\ diagTask = [d \in Docs |-> 0]
-  /\ evq = <<>>
+  /\ retq = <<>> /\ evq = <<>>
   /\ published = [d \in Docs |-> [ver |-> 0, c |-> IF Conc THEN "ok" ELSE "none"]]
 
 -----------------------------------------------------------------------------
@@ -162,7 +162,7 @@ M_Dequeue ==
                  [] m.k = "close" -> "close"
                  [] m.k = "fatal" -> "fatal"
                  [] OTHER -> "skip"          \* didSave, $/cancelRequest, $/..., didChangeConfiguration
-  /\ UNCHANGED <<cText, cOpen, nEdits, nextId, resp, onDisk, hist, chLeft, diagTodo, alive, svars, dvars, tvars>>
+  /\ UNCHANGED <<cText, cOpen, nEdits, nextId, sent, resp, onDisk, hist, chLeft, diagTodo, alive, svars, dvars, tvars>>
 
 M_Skip == /\ alive /\ mpc = "skip" /\ mpc' = "idle" /\ cur' = Nil
           /\ UNCHANGED <<cvars, chLeft, diagTodo, alive, svars, dvars, tvars>>
@@ -185,7 +185,7 @@ M_SpawnTask ==
      IN /\ tasks' = Upd(tasks, t, r)
         /\ inflight' = inflight \cup {t}
   /\ mpc' = "idle" /\ cur' = Nil
-  /\ UNCHANGED <<cvars, chLeft, diagTodo, alive, svars, dvars, nextDiag, diagTask, evq, published>>
+  /\ UNCHANGED <<cvars, chLeft, diagTodo, alive, svars, dvars, nextDiag, diagTask, retq, evq, published>>
 
 M_PollTasks ==
   /\ alive /\ (mpc = "idle" \/ (PollWhileWaiting /\ mpc = "wait_permit"))
@@ -194,7 +194,7 @@ M_PollTasks ==
        /\ resp' = [resp EXCEPT ![t] = @ + 1]
        /\ tasks' = Del(tasks, t)
        /\ inflight' = inflight \ {t}
-  /\ UNCHANGED <<cText, cOpen, nEdits, nextId, inbox, onDisk, hist, mvars, svars, dvars, nextDiag, diagTask, evq, published>>
+  /\ UNCHANGED <<cText, cOpen, nEdits, nextId, sent, inbox, onDisk, hist, mvars, svars, dvars, nextDiag, diagTask, retq, evq, published>>
 
 \* on_did_open / on_did_change / set_vfs_file_content: self.vfs.write()
 M_LockVfs ==
@@ -319,10 +319,9 @@ M_SetInputs ==
 
 \* spawn_update_diagnostics(uri): snapshot + spawn_blocking; not opened => abort it; else replace and abort
 \* the predecessor (abort has no effect on a blocking task that has started)
-M_SpawnDiag ==
-  /\ alive /\ mpc = "diag" /\ diagTodo # {}
+M_SpawnDiagT(t) ==
+  /\ alive /\ mpc = "diag" /\ diagTodo # {} /\ t \notin DOMAIN tasks
   /\ LET d == CHOOSE x \in diagTodo : TRUE
-         t == 0 - nextDiag
          r == [Task("diag", d, "plain") EXCEPT !.snap = ~SnapshotInTask, !.issued = dbVer[d], !.snapVer = dbVer[d],
                                                !.spawnVfs = vfsVer[d], !.aborted = ~opened[d]]
          prev == diagTask[d]
@@ -334,7 +333,8 @@ M_SpawnDiag ==
         /\ diagTodo' = diagTodo \ {d}
         /\ mpc' = IF diagTodo \ {d} = {} THEN "idle" ELSE "diag"
         /\ cur' = IF diagTodo \ {d} = {} THEN Nil ELSE cur
-  /\ UNCHANGED <<cvars, chLeft, alive, svars, dvars, inflight, evq, published>>
+  /\ UNCHANGED <<cvars, chLeft, alive, svars, dvars, inflight, retq, evq, published>>
+M_SpawnDiag == M_SpawnDiagT(0 - nextDiag)
 
 \* on_did_close: forget that the client maintains it (text stays), publish an empty list directly
 M_Close ==
@@ -342,23 +342,40 @@ M_Close ==
   /\ opened' = [opened EXCEPT ![cur.d] = FALSE]
   /\ published' = [published EXCEPT ![cur.d] = [ver |-> dbVer[cur.d], c |-> "closed"]]
   /\ mpc' = "idle" /\ cur' = Nil
-  /\ UNCHANGED <<cvars, chLeft, diagTodo, alive, vfsW, vfsText, vfsVer, pending, loaded, dvars, tasks, inflight, nextDiag, diagTask, evq>>
+  /\ UNCHANGED <<cvars, chLeft, diagTodo, alive, vfsW, vfsText, vfsVer, pending, loaded, dvars, tasks, inflight, nextDiag, diagTask, retq, evq>>
+
+\* the async task awaiting the diagnostics task runs on the main loop's thread between two handlers and emits
+\* CollectDiagnosticsEvent::Internal; waiters are woken in the order in which their tasks completed - the model
+\* only relies on that order per document (hook: DiagEmit)
+FirstOfDoc(i) == \A j \in 1..(i - 1) : tasks[retq[j]].d # tasks[retq[i]].d
+D_EmitT(t) ==
+  /\ Idle
+  /\ \E i \in 1..Len(retq) : (retq[i] = t) /\ FirstOfDoc(i)
+                              /\ (retq' = SubSeq(retq, 1, i - 1) \o SubSeq(retq, i + 1, Len(retq)))
+  /\ LET r == tasks[t]
+         c == IF r.res = "cancelled" THEN "cancelled" ELSE "ok"
+     IN /\ evq' = IF c = "cancelled" /\ ~CancelledDiagPublishesEmpty THEN evq
+                  ELSE Append(evq, [d |-> r.d, ver |-> r.snapVer, c |-> c])
+        /\ tasks' = Del(tasks, t)
+  /\ UNCHANGED <<cvars, mvars, svars, dvars, inflight, nextDiag, diagTask, published>>
+D_Emit == \E t \in DOMAIN tasks : D_EmitT(t)
 
 \* on_update_diagnostics: internal event -> publishDiagnostics (hook: Publish)
 E_Publish ==
   /\ Idle /\ evq # <<>>
   /\ published' = [published EXCEPT ![Head(evq).d] = [ver |-> Head(evq).ver, c |-> Head(evq).c]]
   /\ evq' = Tail(evq)
-  /\ UNCHANGED <<cvars, mvars, svars, dvars, tasks, inflight, nextDiag, diagTask>>
+  /\ UNCHANGED <<cvars, mvars, svars, dvars, tasks, inflight, nextDiag, diagTask, retq>>
 
 MainNext == M_Dequeue \/ M_Skip \/ M_Fatal \/ M_WaitPermit \/ M_SpawnTask \/ M_PollTasks \/ M_LockVfs
             \/ M_IgnoreChange \/ M_ApplyEdit \/ M_OpenStore \/ M_WatchedDelete \/ M_UnlockVfs \/ M_TakeChange
-            \/ M_RequestCancel \/ M_AcquireDbWrite \/ M_SetInputs \/ M_SpawnDiag \/ M_Close \/ E_Publish
+            \/ M_RequestCancel \/ M_AcquireDbWrite \/ M_SetInputs \/ M_SpawnDiag \/ M_Close \/ D_Emit \/ E_Publish
 
 -----------------------------------------------------------------------------
 (* Tasks on the blocking pool: request_snap closures and handler::diagnostics *)
 
 TU == <<cvars, mvars, svars, dvars, inflight, nextDiag, diagTask, published>>
+TQ == <<retq, evq>>
 
 \* the closure starts (hook: TaskStart).  A not-yet-started task whose handle was aborted never runs.
 T_Start(t) ==
@@ -367,12 +384,12 @@ T_Start(t) ==
                             ![t].snap = TRUE,
                             ![t].snapVer = IF SnapshotInTask THEN dbVer[tasks[t].d] ELSE @]
   /\ (SnapshotInTask => mpc \notin {"set"})      \* snapshot() needs the storage read lock
-  /\ UNCHANGED <<TU, evq>>
+  /\ UNCHANGED <<TU, TQ>>
 
 T_Aborted(t) ==
   /\ t \in DOMAIN tasks /\ tasks[t].st = "spawned" /\ tasks[t].aborted
   /\ tasks' = Del(tasks, t)
-  /\ UNCHANGED <<TU, evq>>
+  /\ UNCHANGED <<TU, TQ>>
 
 \* convert::from_file_pos(&snap.vfs(), ..): read lock on the LIVE document store
 T_ReadVfs(t) ==
@@ -382,13 +399,13 @@ T_ReadVfs(t) ==
      IN tasks' = IF vfsText[d] = Absent
                  THEN [tasks EXCEPT ![t].st = "ret", ![t].res = "err", ![t].readVer = v, ![t].convVer = v]
                  ELSE [tasks EXCEPT ![t].st = "query", ![t].readVer = v]
-  /\ UNCHANGED <<TU, evq>>
+  /\ UNCHANGED <<TU, TQ>>
 
 \* every query entry on a snapshot checks the pending-write flag and unwinds with Cancelled
 T_QueryStep(t) ==
   /\ t \in DOMAIN tasks /\ tasks[t].st = "query" /\ cancelFlag
   /\ tasks' = [tasks EXCEPT ![t].st = "ret", ![t].res = "cancelled", ![t].convVer = tasks[t].readVer]
-  /\ UNCHANGED <<TU, evq>>
+  /\ UNCHANGED <<TU, TQ>>
 
 \* the query ran to completion (it may not have noticed a flag raised meanwhile) (hook: QueryDone)
 T_QueryDone(t) ==
@@ -397,32 +414,27 @@ T_QueryDone(t) ==
        tasks' = IF IsConv(tasks[t].rk) /\ r = "ok"
                 THEN [tasks EXCEPT ![t].st = "qdone", ![t].res = r]
                 ELSE [tasks EXCEPT ![t].st = "ret", ![t].res = r, ![t].convVer = tasks[t].readVer]
-  /\ UNCHANGED <<TU, evq>>
+  /\ UNCHANGED <<TU, TQ>>
 
 \* goto_definition / references / rename: `let vfs = snap.vfs();` AFTER the query, ranges converted with it
 T_ConvertWithVfs(t) ==
   /\ t \in DOMAIN tasks /\ tasks[t].st = "qdone" /\ ~vfsW
   /\ tasks' = [tasks EXCEPT ![t].st = "ret",
                             ![t].convVer = IF ConvertWithLiveVfs THEN vfsVer[tasks[t].d] ELSE tasks[t].readVer]
-  /\ UNCHANGED <<TU, evq>>
+  /\ UNCHANGED <<TU, TQ>>
 
 \* request task: the closure returns, the snapshot is dropped (hook: TaskReturn)
 T_Return(t) ==
   /\ t \in DOMAIN tasks /\ tasks[t].kind = "req" /\ tasks[t].st = "ret"
   /\ tasks' = [tasks EXCEPT ![t].st = "returned", ![t].snap = FALSE]
-  /\ UNCHANGED <<TU, evq>>
+  /\ UNCHANGED <<TU, TQ>>
 
-\* diagnostics task returns; the waiting async task emits CollectDiagnosticsEvent::Internal.
-\* Events reach the main loop in the order in which the tasks completed (single-threaded runtime,
-\* FIFO wake-ups).  A cancelled task yields Vec::new() (hook: DiagReturn)
+\* diagnostics task: the closure returns (snapshot dropped); a cancelled computation yields Vec::new()
 D_Return(t) ==
   /\ t \in DOMAIN tasks /\ tasks[t].kind = "diag" /\ tasks[t].st = "ret"
-  /\ LET r == tasks[t]
-         c == IF r.res = "cancelled" THEN "cancelled" ELSE "ok"
-     IN evq' = IF c = "cancelled" /\ ~CancelledDiagPublishesEmpty THEN evq
-               ELSE Append(evq, [d |-> r.d, ver |-> r.snapVer, c |-> c])
-  /\ tasks' = Del(tasks, t)
-  /\ UNCHANGED TU
+  /\ tasks' = [tasks EXCEPT ![t].st = "returned", ![t].snap = FALSE]
+  /\ retq' = Append(retq, t)
+  /\ UNCHANGED <<TU, evq>>
 
 TaskNext(t) == T_Start(t) \/ T_Aborted(t) \/ T_ReadVfs(t) \/ T_QueryStep(t) \/ T_QueryDone(t)
                \/ T_ConvertWithVfs(t) \/ T_Return(t) \/ D_Return(t)
@@ -430,25 +442,26 @@ TaskNext(t) == T_Start(t) \/ T_Aborted(t) \/ T_ReadVfs(t) \/ T_QueryStep(t) \/ T
 -----------------------------------------------------------------------------
 (* The client *)
 
-Quiescent == /\ inbox = <<>> /\ mpc = "idle" /\ evq = <<>> /\ DOMAIN tasks = {} /\ pending \subseteq {d \in Docs : vfsText[d] = Absent}
+Quiescent == /\ inbox = <<>> /\ mpc = "idle" /\ evq = <<>> /\ retq = <<>> /\ DOMAIN tasks = {} /\ pending \subseteq {d \in Docs : vfsText[d] = Absent}
 
 CU == <<mvars, svars, dvars, tvars>>
 Send(m) == inbox' = Append(inbox, m)
 
 \* mode "conc": valid edits and requests at any moment
-C_Edit(d) ==
+C_EditT(d, t) ==
   /\ Conc /\ alive /\ nEdits < MaxEdits /\ cOpen[d]
-  /\ LET t == Append(cText[d], "a") IN
-     /\ cText' = [cText EXCEPT ![d] = t]
-     /\ Send(Msg("change", d, 0, <<Ch(TRUE, P0, P0, t)>>, P0, ""))
+  /\ cText' = [cText EXCEPT ![d] = t]
+  /\ Send(Msg("change", d, 0, <<Ch(TRUE, P0, P0, t)>>, P0, ""))
   /\ nEdits' = nEdits + 1
-  /\ UNCHANGED <<cOpen, nextId, resp, onDisk, hist, CU>>
+  /\ UNCHANGED <<cOpen, nextId, sent, resp, onDisk, hist, CU>>
+C_Edit(d) == C_EditT(d, Append(cText[d], "a"))
 
-C_Request(d, rk) ==
-  /\ Conc /\ alive /\ nextId <= MaxReqs
-  /\ Send(Msg("req", d, nextId, <<>>, P0, rk))
-  /\ nextId' = nextId + 1
+C_RequestI(d, rk, id) ==
+  /\ Conc /\ alive /\ id \in 1..MaxReqs /\ id \notin sent
+  /\ Send(Msg("req", d, id, <<>>, P0, rk))
+  /\ nextId' = nextId + 1 /\ sent' = sent \cup {id}
   /\ UNCHANGED <<cText, cOpen, nEdits, resp, onDisk, hist, CU>>
+C_Request(d, rk) == C_RequestI(d, rk, nextId)
 
 \* mode "seq": the message grammar of C15
 Texts == {<<>>, <<"a">>, <<"nl">>, <<"c4">>, <<"a", "nl", "c2">>, <<"c4", "nl", "a">>}
@@ -508,6 +521,7 @@ C_Script ==
           THEN onDisk' = [onDisk EXCEPT ![m.d] = FALSE] /\ UNCHANGED inbox    \* the driver deletes the file
           ELSE Send(m) /\ UNCHANGED onDisk
        /\ nextId' = IF m.k = "req" THEN nextId + 1 ELSE nextId
+       /\ sent' = IF m.k = "req" THEN sent \cup {nextId} ELSE sent
        /\ hist' = Append(hist, [m |-> m, pre |-> Obs])
   /\ UNCHANGED <<cText, cOpen, nEdits, resp, CU>>
 
@@ -517,16 +531,16 @@ Finish ==
   /\ PrintT(<<"CASE", ToJson([steps |-> hist, final |-> Obs, nreq |-> nextId - 1])>>)
   /\ IF Gen = "sim"
      THEN \* start over: one simulation run yields many scripts (server restarted by the driver)
-          /\ hist' = <<>> /\ nextId' = 1 /\ resp' = [i \in 1..MaxReqs |-> 0]
+          /\ hist' = <<>> /\ nextId' = 1 /\ sent' = {} /\ resp' = [i \in 1..MaxReqs |-> 0]
           /\ onDisk' = [d \in Docs |-> DiskInit(d)]
           /\ vfsText' = [d \in Docs |-> Absent] /\ vfsVer' = [d \in Docs |-> 0] /\ opened' = [d \in Docs |-> FALSE]
           /\ pending' = {} /\ loaded' = FALSE
           /\ dbText' = [d \in Docs |-> Absent] /\ dbVer' = [d \in Docs |-> 0]
           /\ diagTask' = [d \in Docs |-> 0] /\ nextDiag' = 1
           /\ published' = [d \in Docs |-> [ver |-> 0, c |-> "none"]]
-          /\ UNCHANGED <<cText, cOpen, nEdits, inbox, mvars, vfsW, cancelFlag, taken, tasks, inflight, evq>>
+          /\ UNCHANGED <<cText, cOpen, nEdits, inbox, mvars, vfsW, cancelFlag, taken, tasks, inflight, retq, evq>>
      ELSE /\ hist' = Append(hist, [m |-> Nil, pre |-> Obs])      \* marks the script as printed
-          /\ UNCHANGED <<cText, cOpen, nEdits, nextId, resp, inbox, onDisk, CU>>
+          /\ UNCHANGED <<cText, cOpen, nEdits, nextId, sent, resp, inbox, onDisk, CU>>
 
 ClientNext == (\E d \in Docs : C_Edit(d) \/ \E rk \in ReqKinds : C_Request(d, rk)) \/ C_Script \/ Finish
 
@@ -546,7 +560,7 @@ TypeOK == /\ mpc \in {"idle", "wait_permit", "spawn", "lock", "locked", "stored"
 \* C15
 Alive == alive
 AtMostOneResponse == \A i \in 1..MaxReqs : resp[i] <= 1
-AllAnswered == Quiescent => \A i \in 1..MaxReqs : i < nextId => resp[i] = 1
+AllAnswered == Quiescent => \A i \in sent : resp[i] = 1
 \* an edit that cannot be applied leaves the document forgotten and changes no text (action property)
 EditSafety ==
   [][ /\ \A d \in Docs : (vfsText'[d] # vfsText[d] /\ cur.k = "change") =>
@@ -565,7 +579,7 @@ NoDeadlock == ~alive \/ Quiescent \/ ENABLED MainNext \/ \E t \in DOMAIN tasks :
 Mixed(r) == r.res = "ok" /\ ~(r.snapVer = r.readVer /\ r.readVer = r.convVer)
 NoMixture == \A t \in DOMAIN tasks : (tasks[t].kind = "req" /\ tasks[t].st = "returned") => ~Mixed(tasks[t])
 \* ... namely the version the request was issued against
-IssuedVersion == \A t \in DOMAIN tasks : (tasks[t].st = "returned" /\ tasks[t].res = "ok") => tasks[t].snapVer = tasks[t].issued
+IssuedVersion == \A t \in DOMAIN tasks : (tasks[t].kind = "req" /\ tasks[t].st = "returned" /\ tasks[t].res = "ok") => tasks[t].snapVer = tasks[t].issued
 \* once everything is quiet the server's text is the client's and the last published diagnostics are those of it
 Converged(d) == /\ vfsText[d] = StripCR(cText[d]) /\ dbText[d] = vfsText[d]
                 /\ published[d].ver = dbVer[d] /\ published[d].c = "ok"
@@ -575,7 +589,7 @@ TextConvergence == (Conc /\ Quiescent) => \A d \in Docs : vfsText[d] = StripCR(c
 LockDiscipline == (mpc = "set" => Snaps = {}) /\ (mpc \in {"cancel", "acquire", "set"} => (vfsW = HoldVfsAcrossApply))
 
 \* liveness (FairSpec, no state constraint)
-ReqLive == \A i \in 1..MaxReqs : (i < nextId) ~> (resp[i] = 1)
+ReqLive == \A i \in 1..MaxReqs : (i \in sent) ~> (resp[i] = 1)
 ApplyLive == (mpc # "idle") ~> (mpc = "idle")
 InboxLive == (inbox # <<>>) ~> (inbox = <<>>)
 =============================================================================
